@@ -190,17 +190,34 @@ static void dict_cases(uint64_t *unit)
 							if (var < 2)
 								rd = isal_deflate_set_dict(s, din, var == 1 ? efflen : dl);
 							else {
-								memset(pd, 0xff, sizeof *pd); /* the dictionary object is an OUTPUT of process_dict: prior contents must not matter */
+								/* the dictionary object is an OUTPUT of process_dict: prior contents (ff, 00, a repeating 16-bit value, address hash) must not matter */
+								switch ((di + dv + level + hw) % 4) {
+								case 0: memset(pd, 0xff, sizeof *pd); break;
+								case 1: memset(pd, 0x00, sizeof *pd); break;
+								case 2: for (size_t i = 0; i + 1 < sizeof *pd; i += 2) { ((uint8_t *)pd)[i] = 0xa0; ((uint8_t *)pd)[i + 1] = 0xff; } break;
+								default: for (size_t i = 0; i < sizeof *pd; i++) ((uint8_t *)pd)[i] = (uint8_t)((i * 2654435761u) >> 11);
+								}
 								rd = isal_deflate_process_dict(s, pd, din, dl);
 								if (rd == COMP_OK)
 									rd = isal_deflate_reset_dict(s, pd);
 							}
 							if (hlate)
 								s->hist_bits = hbits;
+							/* options that are each checked elsewhere, here TOGETHER with a dictionary (same for all three routes): 1 = SYNC_FLUSH with the
+							 * input in two pieces, 2 = static Huffman tables (level 0) / FULL_FLUSH (levels 1-3) */
+							int combo = (int)((di + dv + ci + hw) % 3);
+							if (rd == COMP_OK && combo == 2 && level == 0)
+								isal_deflate_set_hufftables(s, NULL, IGZIP_HUFFTABLE_STATIC);
 							if (rd == COMP_OK) {
-								s->next_in = in; s->avail_in = len; s->end_of_stream = 1;
+								s->flush = combo == 1 ? SYNC_FLUSH : combo == 2 && level ? FULL_FLUSH : NO_FLUSH;
 								s->next_out = outs[var]; s->avail_out = 2 * len + 4096;
+								size_t first = combo == 1 ? len / 2 : len;
+								s->next_in = in; s->avail_in = first; s->end_of_stream = first == len;
 								r = isal_deflate(s);
+								if (r == COMP_OK && first < len) {
+									s->next_in = in + first; s->avail_in = len - first; s->end_of_stream = 1;
+									r = isal_deflate(s);
+								}
 								ol[var] = s->total_out;
 							}
 							V_END();
